@@ -327,6 +327,8 @@ impl ActiveRelayActor {
             warn!("{err:#}");
             let was_established = matches!(err, RelayConnectionError::Established { .. });
             let last_error = Some(Arc::new(AnyError::from(err)));
+            #[cfg(feature = "verif-hooks")]
+            crate::verif_hooks::sched::pause(&format!("relay_actor.active.report:{}:disconnected", self.url)).await;
             self.my_relay
                 .set_status(&self.url, RelayConnectionState::Disconnected { last_error });
             if !was_established {
@@ -400,6 +402,8 @@ impl ActiveRelayActor {
     /// be retried with a backoff.
     #[allow(clippy::result_large_err)]
     async fn run_once(&mut self) -> Result<(), RelayConnectionError> {
+        #[cfg(feature = "verif-hooks")]
+        crate::verif_hooks::sched::pause(&format!("relay_actor.active.report:{}:connecting", self.url)).await;
         self.my_relay
             .set_status(&self.url, RelayConnectionState::Connecting);
         let client = match self.run_dialing().instrument(info_span!("dialing")).await {
@@ -410,6 +414,8 @@ impl ActiveRelayActor {
             }
             None => return Ok(()),
         };
+        #[cfg(feature = "verif-hooks")]
+        crate::verif_hooks::sched::pause(&format!("relay_actor.active.report:{}:connected", self.url)).await;
         self.my_relay
             .set_status(&self.url, RelayConnectionState::Connected);
         self.metrics.relay_conns_success.inc();
@@ -493,6 +499,8 @@ impl ActiveRelayActor {
                     };
                     match msg {
                         ActiveRelayMessage::SetHomeRelay(is_home) => {
+                            #[cfg(feature = "verif-hooks")]
+                            crate::verif_hooks::sched::pause(&format!("relay_actor.active.set_home:{}:dialing:{is_home}", self.url)).await;
                             self.set_home_relay(is_home);
                         }
                         ActiveRelayMessage::CheckConnection { .. } => {}
@@ -621,6 +629,8 @@ impl ActiveRelayActor {
                     };
                     match msg {
                         ActiveRelayMessage::SetHomeRelay(is_home) => {
+                            #[cfg(feature = "verif-hooks")]
+                            crate::verif_hooks::sched::pause(&format!("relay_actor.active.set_home:{}:connected:{is_home}", self.url)).await;
                             self.set_home_relay(is_home);
                             // We are in `run_connected`, so if we just became the home
                             // relay, publish `Connected` (the `RelayActor` only sets
@@ -1081,6 +1091,68 @@ impl HomeRelayWatch {
     }
     pub(crate) fn verif_get(&self) -> Option<RelayStatus> {
         self.get()
+    }
+}
+
+/// Verification handle on a [`RelayActor`] whose messages are handled by direct calls
+/// instead of its `run` loop, so that a harness knows when a message has been handled.
+/// Every method calls exactly one private item of the actor.
+#[cfg(feature = "verif-hooks")]
+pub(crate) struct VerifRelayActor {
+    actor: RelayActor,
+    /// keeps the receive queue of the connection actors open
+    _recv: mpsc::Receiver<RelayRecvDatagram>,
+}
+
+#[cfg(feature = "verif-hooks")]
+impl VerifRelayActor {
+    pub(crate) fn new(config: Config, cancel_token: CancellationToken) -> Self {
+        let (tx, rx) = mpsc::channel(512);
+        Self {
+            actor: RelayActor::new(config, tx, cancel_token),
+            _recv: rx,
+        }
+    }
+    /// `handle_msg(RelayActorMessage::NetworkChange { report })`
+    pub(crate) async fn verif_network_change(&mut self, report: Report) {
+        self.actor
+            .handle_msg(RelayActorMessage::NetworkChange { report })
+            .await
+    }
+    /// `active_relay_handle(url)`: starts the connection actor for `url` if there is none.
+    pub(crate) fn verif_active_relay_handle(&mut self, url: RelayUrl) {
+        let _ = self.actor.active_relay_handle(url);
+    }
+    /// Queues `HasEndpointRoute` on the priority inbox of `url`'s connection actor; the
+    /// answer arrives when that actor is next at the top of one of its loops.
+    pub(crate) fn verif_probe(
+        &self,
+        url: &RelayUrl,
+        peer: EndpointId,
+    ) -> Option<oneshot::Receiver<bool>> {
+        let (tx, rx) = oneshot::channel();
+        self.actor
+            .active_relays
+            .get(url)?
+            .prio_inbox_addr
+            .try_send(ActiveRelayPrioMessage::HasEndpointRoute(peer, tx))
+            .ok()?;
+        Some(rx)
+    }
+    /// `(url, number of messages waiting in the actor's inbox)` for every connection actor.
+    pub(crate) fn verif_active_relays(&self) -> Vec<(RelayUrl, usize)> {
+        self.actor
+            .active_relays
+            .iter()
+            .map(|(url, h)| {
+                let queued = h.inbox_addr.max_capacity() - h.inbox_addr.capacity();
+                (url.clone(), queued)
+            })
+            .collect()
+    }
+    /// `close_all_active_relays()`
+    pub(crate) async fn verif_close(&mut self) {
+        self.actor.close_all_active_relays().await
     }
 }
 
